@@ -2318,7 +2318,33 @@ PREFIX (_translate) (region_type_t *region, int x, int y)
             pbox_out++;
 	}
 
-        if (pbox_out != pbox)
+	/* Clamping x coordinates at the limit can give vertically adjacent
+	 * bands identical spans: merge them again so that the region stays
+	 * in canonical y-x banded form.
+	 */
+	if (region->data->numRects > 1)
+	{
+	    box_type_t *boxes = PIXREGION_BOXPTR (region);
+	    int n = region->data->numRects;
+	    int in = 0, prev_band = 0;
+
+	    region->data->numRects = 0;
+	    while (in < n)
+	    {
+		int cur_band = region->data->numRects;
+		int band_end = in;
+
+		while (band_end < n && boxes[band_end].y1 == boxes[in].y1)
+		    band_end++;
+
+		memmove (&boxes[cur_band], &boxes[in],
+			 (band_end - in) * sizeof (box_type_t));
+		region->data->numRects += band_end - in;
+		COALESCE (region, prev_band, cur_band);
+		in = band_end;
+	    }
+	}
+
         {
             if (region->data->numRects == 0)
             {
